@@ -79,8 +79,18 @@ impl Property for C12 {
                 (world(d, cp.clone()), vec(pieces_long(10), 1..=4))
             })
             
-            .prop_flat_map(|x| (Just(x), prop::bool::weighted(0.3)))
-            .prop_map(|(((dic, cfg), texts), ubuild)| Case { dic, cfg, texts, ubuild })
+            .prop_flat_map(|x| (Just(x), prop::bool::weighted(0.3), prop::option::weighted(0.12, any::<u16>())))
+            .prop_map(|(((mut dic, cfg), texts), ubuild, dup)| {
+                // the same user dictionary listed twice in a row: two layers with their own numbers
+                if let Some(k) = dup {
+                    if !dic.users.is_empty() && dic.users.len() < 14 {
+                        let i = ix(k, dic.users.len());
+                        let copy = dic.users[i].clone();
+                        dic.users.insert(i + 1, copy);
+                    }
+                }
+                Case { dic, cfg, texts, ubuild }
+            })
             .boxed()
     }
     fn cases_per_shard(&self, tier: Tier) -> u32 {
